@@ -2,4 +2,4 @@
 From Coq Require Import ExtrOcamlBasic.
 From Sakura.Model Require Import Base Script.
 Extraction Language OCaml.
-Extraction "../ocaml/script_model.ml" Script.compile_script Script.run_script Script.lex_script.
+Extraction "../ocaml/script_model.ml" Script.compile_script Script.compile_script_lang Script.run_script Script.lex_script.
